@@ -63,6 +63,10 @@ func (m *Model) Call(op string, args ...string) string {
 	defer m.mu.Unlock()
 	m.n++
 	m.calls++
+	if os.Getenv("VERIF_DEBUG") != "" {
+		fmt.Fprintf(os.Stderr, "[model] %d %s (%d arg bytes)\n", m.n, op, len(strings.Join(args, " ")))
+		os.WriteFile("/tmp/lastreq.txt", []byte(fmt.Sprintf("%d %s %s\n", m.n, op, strings.Join(args, " "))), 0o644)
+	}
 	fmt.Fprintf(m.in, "%d %s %s\n", m.n, op, strings.Join(args, " "))
 	m.in.Flush()
 	for {
